@@ -42,7 +42,7 @@ def dump (c : Cont Val) : String :=
     (if c.readonly then "r" else "w")
 
 def showMembers (c : Cont Val) : String :=
-  let ks := (List.range c.list.length).map (fun i => Key.int i) ++
+  let ks := (List.range c.list.length).map (fun i => Key.int (i : Nat)) ++
     (c.named.map (·.1)).mergeSort keyLe
   if ks.isEmpty then "-" else ",".intercalate (ks.map showKey)
 
@@ -61,7 +61,7 @@ def slot (st : St) (s : String) : Option (Nat × Cont Val) :=
   | some i => (st[i]?).map (i, ·)
   | none => none
 
-def mut (st : St) (s : String) (srt : List Val → List Val) (op : Op Val) : St × String :=
+def mutate (st : St) (s : String) (srt : List Val → List Val) (op : Op Val) : St × String :=
   match slot st s with
   | some (i, c) => let r := apply srt c op; (st.set i r.1, showOut r.2)
   | none => (st, "bad-op")
@@ -74,28 +74,28 @@ def step (st : St) (l : List String) : St × String :=
     | some (i, _) => (st.set i {}, "ok")
     | none => (st, "bad-op")
   | ["add", s, v] => match parseVal v with
-    | some v => mut st s srt (.add v)
+    | some v => mutate st s srt (.add v)
     | none => (st, "bad-op")
   | ["set", s, k, v] => match parseKey k, parseVal v with
-    | some k, some v => mut st s srt (.set k v)
+    | some k, some v => mutate st s srt (.set k v)
     | _, _ => (st, "bad-op")
   | ["ins", s, a, v] => match a.toInt?, parseVal v with
-    | some a, some v => mut st s srt (.insert a v)
+    | some a, some v => mutate st s srt (.insert a v)
     | _, _ => (st, "bad-op")
   | ["del", s, k] => match parseKey k with
-    | some k => mut st s srt (.delete k)
+    | some k => mutate st s srt (.delete k)
     | none => (st, "bad-op")
   | ["erase", s, k] => match parseKey k with
-    | some k => mut st s srt (.erase k)
+    | some k => mutate st s srt (.erase k)
     | none => (st, "bad-op")
-  | ["popf", s] => mut st s srt .popFirst
-  | ["popl", s] => mut st s srt .popLast
-  | ["sort", s] => mut st s srt .sort
-  | ["sortlt", s] => mut st s (stableSort leDesc) .sort
-  | ["uniq", s] => mut st s srt .unique
-  | ["rev", s] => mut st s srt .reverse
-  | ["clear", s] => mut st s srt .deleteAll
-  | ["ro", s] => mut st s srt .setReadonly
+  | ["popf", s] => mutate st s srt .popFirst
+  | ["popl", s] => mutate st s srt .popLast
+  | ["sort", s] => mutate st s srt .sort
+  | ["sortlt", s] => mutate st s (stableSort leDesc) .sort
+  | ["uniq", s] => mutate st s srt .unique
+  | ["rev", s] => mutate st s srt .reverse
+  | ["clear", s] => mutate st s srt .deleteAll
+  | ["ro", s] => mutate st s srt .setReadonly
   | ["get", s, k] => match slot st s, parseKey k with
     | some (_, c), some k => (st, showOptVal (get c k))
     | _, _ => (st, "bad-op")
